@@ -37,7 +37,8 @@ MAIN = [C(f, ne, av) for f in ms.FAMS for ne in (False, True) for av in (False, 
        [C(f, True, True, "none", w) for f in ms.FAMS for w in (1, 2)] + [C(f, False, True, "none", 1) for f in ms.FAMS] + \
        [C(f, True, True, "none", None, obs_noise_ne=3.0) for f in ms.FAMS] + \
        [C("D", True, True, "none", None, dist_noise=2.0, dist_noise_ne=0.7, obs_noise=0.5), C("S", True, True, "mpn0.3", 1, obs_noise=0.5, obs_noise_ne=2.0),
-        C("D", True, True, "none", None, ne_factor=0.5)]
+        C("D", True, True, "none", None, ne_factor=0.5)] + \
+       [C(f, True, True, "none", None, maxnb=1) for f in ms.FAMS] + [C("D", True, True, "none", 2, maxnb=2)]
 N4 = [C(f, True, True) for f in ms.FAMS] + [C("D", True, True, "none", 1), C("S", True, True, "none", 1), C("D", True, False, "mpn0.3")]
 HIST = [C("D", True, True, "none", 1), C("S", True, True, "none", 1), C("SN", True, True, "none", 1), C("D", False, True, "none", 1)]
 
